@@ -1,13 +1,8 @@
-"""Per-property configuration of bin/check. `rule` is the generation / non-triviality rule printed in
-the evidence (DESIGN.md A.5); `reference_spec` marks properties whose expected observable comes from
-the proved Spec layer (a disagreement is then a failing input of the property itself)."""
-PROPS = {
-    "C07": {
-        "rule": "every 1-byte and every 2-byte string (exhaustive), fixed pre-escaped / multi-byte / invalid UTF-8 strings and random "
-                "strings biased to the five special characters, each through {{v|e}}, {{v|escape}}, a filter chain, apply, a macro body, "
-                "an included template, nested control structures and the built-in fallback of ApplyFilter; distinct by input bytes, "
-                "non-trivial = input contains at least one of < > & \" '",
-        "explanation": "theorems over all byte strings about the model escape = flat_map esc1; model tied to filterEscape/html.EscapeString and to the "
-                       "ApplyFilter fallback by exact output comparison; search oracle = no raw special byte and Go's html.UnescapeString(out) = in",
-    },
-}
+"""Per-property configuration of bin/check, one JSON file per property under /verif/props/.
+Keys: rule (generation / non-triviality rule printed in the evidence, DESIGN.md A.5), explanation (what is proved and how
+it is tied to the code), partial (what the theorem cannot exhibit), reference_spec (set when the expected observable comes
+from the proved Spec layer: a disagreement is then a failing input of the property itself), race (runner built with -race),
+timeout, allowed_axioms, assumptions, trusted_extra, technique."""
+import glob, json, os
+_d = os.path.join(os.path.dirname(os.path.dirname(os.path.abspath(__file__))), "props")
+PROPS = {os.path.basename(f)[:-5]: json.load(open(f)) for f in sorted(glob.glob(os.path.join(_d, "C*.json")))}
